@@ -177,8 +177,8 @@ def readers(ctx):
         else:
             _check_reader_value(ctx, q, fn, (tag, tag), val[1], rd, w)
         raw = flatten_cat(val[2])
-        exp_raw = [('slice', rd, 0, 1, None)] + ([('slice', rd, 1, 1 + w, None)] if w else [])
-        ctx.require(raw == exp_raw or raw == [('slice', rd, 0, 1 + w, None)], q,
+        exp_raw = [('slice', rd, None, 1, None)] + ([('slice', rd, 1, 1 + w, None)] if w else [])
+        ctx.require(raw == exp_raw or raw == [('slice', rd, None, 1 + w, None)], q,
                     'tag %d: raw bytes returned are %s, expected the %d consumed bytes' % (tag, show(val[2]), 1 + w), fn)
         ctx.require(pos == ('binop', '+', pos0, 1 + w), q,
                     'tag %d: stream left at %s, expected start + %d' % (tag, show(pos), 1 + w), fn)
